@@ -1621,12 +1621,12 @@ impl Bgi {
             for c in str.chars() {
                 if let Some(glyph) = DEFAULT_BITFONT.get_glyph(c) {
                     for y in 0..8 {
-                        let mut pos = ((yf + y) * self.window.width + xf) as usize;
+                        let pos = (yf + y) * self.window.width + xf;
                         for x in 0..8 {
-                            if glyph.data[y as usize] & (1 << (7 - x)) != 0 {
+                            let pos = (pos + x) as usize;
+                            if glyph.data[y as usize] & (1 << (7 - x)) != 0 && pos < self.screen.len() {
                                 self.screen[pos] = self.color;
                             }
-                            pos += 1;
                         }
                     }
                     xf += 8;
